@@ -239,6 +239,8 @@ def run_stack(case):
             warnings.simplefilter(case.get('filter', 'default'), DeprecationWarning)
 
             def show(message, category, filename, lineno, file=None, line=None):
+                if category is RuntimeWarning:      # "coroutine ... was never awaited", emitted whenever the collector runs
+                    return
                 events.append(2 if category is DeprecationWarning else 3)
             warnings.showwarning = show
             sys.stdout = Out(events)
